@@ -1252,7 +1252,7 @@ class unconnected_send( dfa ):
                 "{} -- checking data[{!r}] (kwds {!r}) for unconnected_send error ({:5}) ({}, next {!r}): {}".format(
                 self, path, kwds, data[path+'..length'] <= 6, source, source.peek(), enip_format( data ) )
             )
-            if data[path+'..length'] <= 6:
+            if 4 <= data[path+'..length'] <= 6:
                 # Might be a Unconnected Send error, perhaps with a remaining path size; peek at the
                 # error code and extended status; if the code is < 0x10 and there is NO extended status,
                 # then it must *not* be a Read Tag Fragmented error code, as ALL of its <0x10 status
